@@ -64,6 +64,22 @@ pub fn rule_spaces(_tier: Tier) -> Vec<CfgSpace> {
         }
     }));
 
+    // the loss word: every fraction-lost value x cumulative-loss values on both sides of 24 bits, among them values
+    // whose top byte is contained in / equal to / the complement of the fraction (the two share a wire word)
+    v.push(CfgSpace::new("rules-loss-word", 256 * 10 * 2, move |idx| {
+        let fraction = (idx % 256) as u8;
+        let f = fraction as u32;
+        let cum = [0x00FF_FFFFu32, 0x0100_0000, 0x0100_0005, (f << 24) | 5, ((f & 0x0F) << 24) | 7, ((!f & 0xFF) << 24) | 9, 0x8000_0000, 0xFF00_0001, 0xFFFF_FFFF, 0x0080_0000][((idx / 256) % 10) as usize];
+        let mut b = sentinel_rb(0, 0);
+        b.fraction = fraction;
+        b.cum = cum;
+        if idx / 2560 == 0 {
+            Pkt::Rr { ssrc: 1, blocks: vec![b], pad: 0 }
+        } else {
+            Pkt::Sr { ssrc: 1, ntp: 2, rtp: 3, pc: 4, oc: 5, blocks: vec![sentinel_rb(1, 0), b], pad: 4 }
+        }
+    }));
+
     // SDES: padding x chunk count x item case (placed in one chunk)
     let items = item_cases();
     let ni = items.len() as u64;
